@@ -22,9 +22,11 @@ ops
              indifference class shuffled with seed s
    c15.app   [alts, ballots, twins, ncat]    approval profile; twin = [fimg, bperm, aperm, cshuf]
    c15.mat   [nc, rows, twins]               0/1 matrix; twin = [colperm, rowperm]
-   c15.eucl  [alts, profile, mults, twins]   is_one_euclidean, labels 1..m only; twin = [fimg (a permutation of 1..m),
-             bperm]; SMALL DETERMINISTIC set (constant seed, VERIF_SEED ignored): the function has open known findings
-             (KF-C19-*), the failing twin cases are listed by sha-256 in KF-C15-eucl-* (regenerate: props/c15_known.py)
+   c15.eucl  [alts, profile, mults, twins]   is_one_euclidean, labels 1..m only (its output keys are computed from
+             the labels); twin = [fimg (a permutation of 1..m), bperm].  Until /repo commits 5a8bee2..74e9e2c this
+             function had open findings and the set was constant-seeded with KF-C15-eucl-* entries; it is now an
+             ordinary seed-dependent part of the campaign with no suppression (props/c15_known.py can regenerate
+             sha-256 lists should a finding ever have to be recorded again)
 """
 import random
 
@@ -37,8 +39,9 @@ RULE = ("metamorphic, implementation only: base input + 2-3 twins (relabelled to
         "shuffled and rebuilt through append_order_list / both); seeded generators: planted single-peaked (Conitzer, "
         "Walsh), single-crossing (swap walks), tree, weak single-plateaued, tie-heavy scoring profiles, interval / "
         "partition approval profiles and planted C1P matrices, each with and without noise, m <= 30, n <= 60 (PQ-tree, "
-        "conflict sets: m <= 10; ILPs and deletion / partition optimisers m <= 7, few); 1-Euclidean: fixed set "
-        "(constant seed); a case is non-trivial when some twin differs from the base in labels AND in storage order")
+        "conflict sets: m <= 10; ILPs and deletion / partition optimisers m <= 7, few); 1-Euclidean: label "
+        "permutations of 1..m and storage orders (extremes moved to the middle, reversed, shuffled), m <= 7, n <= 8; "
+        "a case is non-trivial when some twin differs from the base in labels AND in storage order")
 EXHAUSTIVE = {"quick": "", "thorough": ""}
 TRUSTED = ["(R)/(M) as in C03-C07, C11-C14, C18, C19: C15 runs no reference decider; it compares the implementation "
            "with itself on equivalent inputs and validates witnesses with the verified checkers of those properties",
@@ -956,15 +959,15 @@ def gen_mat(rng, tier, count):
     return out
 
 
-def gen_eucl(tier):
-    """deterministic (constant seed): planted 1-Euclidean profiles stored by voter position (first and last stored
+def gen_eucl(tier, seed=0):
+    """planted 1-Euclidean profiles stored by voter position (first and last stored
     ballot = the two extreme voters) with twins whose extremes sit in the middle / reversed / shuffled; SC walks;
-    single-peaked + single-crossing but not Euclidean profiles; random profiles; m <= 6, n <= 7"""
-    rng = random.Random(EUCL_SEED + (0 if tier == "quick" else 1))
+    single-peaked + single-crossing but not Euclidean profiles; random profiles; m <= 7, n <= 8"""
+    rng = random.Random(EUCL_SEED + 7717 * seed + (0 if tier == "quick" else 1))
     out = []
-    count = 72 if tier == "quick" else 288
+    count = 72 if tier == "quick" else 400
     for i in range(count):
-        m, n = rng.randint(3, 6), rng.randint(2, 7)
+        m, n = rng.randint(3, 7), rng.randint(2, 8)
         alts = list(range(1, m + 1))
         fam = ["planted", "planted", "planted", "sc", "spsc", "rand"][i % 6]
         if fam == "planted":
@@ -1000,5 +1003,5 @@ def generate(tier, seed):
     out += gen_scoring(rng, tier, 300 if q else 2400)
     out += gen_app(rng, tier, 200 if q else 1600)
     out += gen_mat(rng, tier, 200 if q else 1600)
-    out += gen_eucl(tier)
+    out += gen_eucl(tier, seed)
     return out
